@@ -50,7 +50,95 @@ def budget(tier):
 
 
 @st.composite
+def _scale_cases(draw, tier):
+    """Large instances on real CBC with the prefix-consistency oracle (no enumeration): the
+    value an earlier criterion reaches in the full run must equal the value it reaches when the
+    run stops after it.  Half of them are 'deep' instances whose cost values exceed 10^4."""
+    salt = draw(strategies.salts)
+    if draw(st.booleans()):
+        L = draw(st.sampled_from([12, 15, 16]))
+        m = draw(st.sampled_from([40, 45, 50, 70]))
+        e = draw(st.sampled_from([1, 2, 3]))
+        n1 = m + e
+        prefs = [[[p] for p in range(1, L + 1)] for _ in range(n1)]
+        puq = [e] + [0] * (L - 2) + [m]
+        plq = [0] * (L - 1) + [m]
+        inst = {'na': 2, 'n1': n1, 'n2': L, 'n3': L, 'prefs': prefs, 'plq': plq, 'puq': puq,
+                'plec': list(range(1, L + 1)), 'llq': list(plq), 'lt': list(puq),
+                'luq': list(puq), 'lprefs': None, 'cls': 'deep'}
+        names = draw(st.sampled_from([['minsqcost', 'maxsize'], ['mincost', 'maxsize'],
+                                      ['minsqcost', 'gre'], ['minsqcost', 'maxsize', 'gre'],
+                                      ['maxsize', 'minsqcost'], ['mincost', 'gre']]))
+    else:
+        inst = draw(strategies.instances(_lp.LARGE[tier]))
+        names = list(draw(st.permutations(strategies.CRIT_NAMES)))[:draw(st.sampled_from([2, 3]))]
+    crit = []
+    for k, n in enumerate(names):
+        crit.append([n, k + 1 + draw(st.sampled_from([0, 0, 1])) * 0, []])
+    positions = sorted(draw(st.permutations(list(range(1, 10))))[:len(names)])
+    for c, p in zip(crit, positions):
+        c[1] = p
+    twopl = inst['lprefs'] is not None
+    flags = ['f', 'na'] + ['twopl'] * twopl + ['crit%d' % i for i in range(len(crit))]
+    opts = {'twopl': twopl, 'stab': False, 'pc': False, 'crit': crit,
+            'order': list(draw(st.permutations(flags)))}
+    return {'kind': 'scale', 'inst': inst, 'opts': opts, 'choices': [], 'mode': 'cbc',
+            'salt': salt, 'order2': opts['order']}
+
+
+def run_scale(case):
+    from .. import refmodel
+    inst, opts = case['inst'], case['opts']
+    o = refmodel.Oracle(inst, opts['twopl'], False)
+    criteria = strategies.ordered_criteria(opts)
+
+    def run(ncrit):
+        sub = sorted(opts['crit'], key=lambda c: c[1])[:ncrit]
+        keep = {id(c) for c in sub}
+        idx = [i for i, c in enumerate(opts['crit']) if id(c) in keep]
+        o2 = dict(opts, crit=[opts['crit'][i] for i in idx],
+                  order=[f for f in opts['order'] if not f.startswith('crit')] +
+                  ['crit%d' % k for k in range(len(idx))])
+        r = solverio.Run(inst, o2, mode='cbc').solve()
+        return r.parsed('short')
+    try:
+        full = run(len(criteria))
+    except Violation as v:
+        if _lp.owns_exceptions(v):
+            return Result(False, ['kind=scale', 'skipped:exception'])
+        raise
+    labels = ['kind=scale', 'cls=' + inst.get('cls', '?'), 'status=' + str(full['pulp_status'])]
+    if full['pulp_status'] != 'Optimal' or full['matching'] is None:
+        return Result(False, labels)
+    M = full['matching']
+    if not o.valid(M):
+        return Result(False, labels + ['skipped:invalid_matching'])      # C01's statement
+    keys = [o.key(n, a, M) for n, a in criteria]
+    big = False
+    for k in range(1, len(criteria)):
+        part = run(k)
+        if part['pulp_status'] != 'Optimal' or part['matching'] is None:
+            raise Violation('prefix_status', 'criteria %r are Optimal together but the prefix of '
+                            'length %d is %r' % ([c[0] for c in criteria], k, part['pulp_status']))
+        pk = [o.key(n, a, part['matching']) for n, a in criteria[:k]]
+        if pk != keys[:k]:
+            j = next(i for i in range(k) if pk[i] != keys[i])
+            raise Violation('later_criterion_worsens_earlier:' + criteria[j][0],
+                            'criterion %d (%s) reaches %r when the run stops after criterion %d, '
+                            'but %r in the full run %r (instance with %d students)'
+                            % (j + 1, criteria[j][0], pk[j], k, keys[j],
+                               [c[0] for c in criteria], inst['n1']))
+        if any(isinstance(x, int) and abs(x) >= 10000 for x in pk):
+            big = True
+    if big:
+        labels.append('values>=10^4')
+    return Result(True, labels)
+
+
+@st.composite
 def _cases(draw, tier):
+    if pct(draw) < 6:
+        return draw(_scale_cases(tier))
     mode = 'cbc' if pct(draw) < 7 else ('both' if tier == 'thorough' and pct(draw) < 8 else 'eb')
     salt = draw(strategies.salts)
     conflict = pct(draw) < 50
@@ -97,6 +185,8 @@ def check_lines(c, criteria, which):
 
 
 def run_case(case):
+    if case.get('kind') == 'scale':
+        return run_scale(case)
     try:
         c = _lp.run_lp(case, want_long=False)
     except Violation as v:
